@@ -3,72 +3,57 @@
 // Driver for property C18 (batched RPC multiplexing). It runs seeded scenarios against the real
 // internal/client.RPCClient talking to an in-process echoing gRPC server, and prints one event per
 // line (tab separated). The events come from three vantage points, serialised by one mutex:
-//   * the caller goroutines (SUB before SendRequest, RET after it returned),
-//   * a gRPC stream interceptor on the client side of every BatchCommands stream (NS = stream
+//   - the caller goroutines (SUB before SendRequest, RET after it returned),
+//   - a gRPC stream interceptor on the client side of every BatchCommands stream (NS = stream
 //     created, SB/SE = batch handed to Send / Send returned, RV = response batch about to be
 //     dispatched by batchRecvLoop, RE = Recv failed), which is also where send/recv/create faults
 //     are injected,
-//   * read-only snapshots of batchCommandsClient.batched (zz_verif_export_batchrpc.go).
+//   - read-only snapshots of batchCommandsClient.batched (zz_verif_export_batchrpc.go).
+//
 // The extracted Coq model (ocaml/batchrpc/driver.ml) replays the events and evaluates the oracles.
 //
 // usage: batchrpc            -- scenarios from VERIF_SEED / VERIF_TIER
-//        batchrpc replay F   -- F holds one scenario spec (JSON); it is run VERIF_REPEAT (default 5) times
+//
+//	batchrpc replay F   -- F holds one scenario spec (JSON); it is run VERIF_REPEAT (default 5) times
 package main
 
 import (
 	"bufio"
-	"context"
 	"encoding/json"
 	"fmt"
 	"io"
 	"math/rand"
-	"net"
 	"os"
 	"path/filepath"
 	"sort"
 	"strconv"
-	"strings"
 	"sync"
-	"sync/atomic"
-	"time"
 
-	"github.com/pingcap/failpoint"
-	"github.com/pingcap/kvproto/pkg/coprocessor"
-	"github.com/pingcap/kvproto/pkg/kvrpcpb"
-	"github.com/pingcap/kvproto/pkg/tikvpb"
 	"github.com/pingcap/log"
-	"github.com/pkg/errors"
-	dto "github.com/prometheus/client_model/go"
-	"github.com/tikv/client-go/v2/config"
-	"github.com/tikv/client-go/v2/internal/client"
-	"github.com/tikv/client-go/v2/metrics"
-	"github.com/tikv/client-go/v2/tikvrpc"
 	"github.com/tikv/client-go/v2/util"
-	"github.com/tikv/client-go/v2/util/async"
 	"go.uber.org/zap/zapcore"
-	"google.golang.org/grpc"
-	"google.golang.org/grpc/codes"
-	"google.golang.org/grpc/metadata"
-	"google.golang.org/grpc/status"
 )
 
 // ---------------------------------------------------------------- scenario description
 
 type CallerSpec struct {
-	Host      int   `json:"h"`  // index into hosts; 0 = not forwarded
-	Pri       int   `json:"p"`  // override priority (>= 10 is "high")
-	Kind      int   `json:"k"`  // 0 RawGet, 1 Get, 2 Empty, 3 Coprocessor
-	TimeoutMs int   `json:"to"` // SendRequest time-out
-	CancelUs  int64 `json:"cu"` // cancel the context after this many microseconds; <0 never
-	StartUs   int64 `json:"su"` // start delay
-	SlowMs    int   `json:"sl"` // the server holds the response of this request for so long
-	Async     bool  `json:"as"` // use SendRequestAsync (no timer of its own: bounded by the context only)
+	Host      int   `json:"h"`   // index into hosts; 0 = not forwarded
+	Pri       int   `json:"p"`   // override priority (>= 10 is "high")
+	Kind      int   `json:"k"`   // 0 RawGet, 1 Get, 2 Empty, 3 Coprocessor
+	TimeoutMs int   `json:"to"`  // SendRequest time-out
+	CancelUs  int64 `json:"cu"`  // cancel the context after this many microseconds; <0 never
+	StartUs   int64 `json:"su"`  // start delay
+	SlowMs    int   `json:"sl"`  // the server holds the response of this request for so long
+	Async     bool  `json:"as"`  // use SendRequestAsync (no timer of its own: bounded by the context only)
 	CbMs      int   `json:"cb"`  // an async callback keeps the shared run loop busy for so long
 	Key       int   `json:"key"` // Kind 4 (ResolveLock through reqCollapse): start version (multiple of 10)
 	Var       int   `json:"var"` // Kind 4: which component differs from the plain full-region request: 0 none, 1 / 2 two different
 	// TxnInfos (batch resolve), 3 Keys (resolve lock lite), 5 another region, 4 another commit version
-	Pool      int   `json:"pl"` // which store (connection pool) the call goes to
-	Long      bool  `json:"lg"` // "no deadline": sync calls get a 30 s time-out, async calls a context without deadline;
+	Group int  `json:"grp"`  // resource group of the request: 0 none, 1..3 groups with priorities 1 / 8 / 12, 9 a background group
+	Gate  int  `json:"gate"` // resource-control gate of this call: 1 OnRequestWait fails, 2 OnResponseWait fails
+	Icpt  bool `json:"ic"`   // an RPC interceptor is attached to the call's context
+	Pool  int  `json:"pl"`   // which store (connection pool) the call goes to
+	Long  bool `json:"lg"`   // "no deadline": sync calls get a 30 s time-out, async calls a context without deadline;
 	// such a call must complete in the scenario's drain phase (finite watchdog)
 }
 
@@ -97,11 +82,13 @@ type Scenario struct {
 	Dup       float64      `json:"dup"`
 	Unknown   float64      `json:"unknown"`
 	Blackhole float64      `json:"blackhole"`
-	Pools     int          `json:"pools"`   // number of stores (each its own server, address and connection pool); 0 = 1
+	Pools     int          `json:"pools"`    // number of stores (each its own server, address and connection pool); 0 = 1
 	RunLoop   bool         `json:"runloop"`  // all async callbacks of the scenario share ONE async.RunLoop driven by one goroutine
 	Collapse  bool         `json:"collapse"` // calls go through NewReqCollapse(NewInterceptedClient(rpc)), like tikv/kv.go
 	HoldMs    int          `json:"holdms"`   // the server holds every ResolveLock request for so long
-	NoBatch   bool         `json:"nobatch"` // MaxBatchSize = 0: the non-batch path (one unary call per request)
+	RC        bool         `json:"rc"`       // calls go through NewInterceptedClient(rpc) with a resource-control interceptor installed
+	DialMs    int          `json:"dialms"`   // every TCP connect of the client takes so long (the conn stays CONNECTING meanwhile)
+	NoBatch   bool         `json:"nobatch"`  // MaxBatchSize = 0: the non-batch path (one unary call per request)
 }
 
 // ---------------------------------------------------------------- event log
@@ -130,1671 +117,6 @@ func evs(sc int64, f string, a ...interface{}) {
 		out.WriteByte('\n')
 	}
 	outMu.Unlock()
-}
-
-// ---------------------------------------------------------------- echo server
-
-type item struct {
-	id   uint64
-	resp *tikvpb.BatchCommandsResponse_Response
-}
-
-type srvStream struct {
-	host string
-	conn string
-	kill chan struct{}
-	once sync.Once
-	mu   sync.Mutex
-	pend []item
-	held []heldItem // slow requests: answered only after their hold time (or when the scenario drains)
-	wake chan struct{}
-}
-
-type heldItem struct {
-	it item
-	at time.Time
-}
-
-func (s *srvStream) doKill() { s.once.Do(func() { close(s.kill) }) }
-
-type server struct {
-	tikvpb.UnimplementedTikvServer
-	sc      *Scenario
-	mu      sync.Mutex
-	rng     *rand.Rand
-	streams map[*srvStream]bool
-	g       *grpc.Server
-	addr    string
-	drain   atomic.Bool // answer everything immediately, no faults (end of scenario)
-	bad     atomic.Int64 // number of response batches still to be sent with one id lacking its response
-}
-
-func (s *server) rnd(f func(r *rand.Rand)) { s.mu.Lock(); f(s.rng); s.mu.Unlock() }
-
-func echo(r *tikvpb.BatchCommandsRequest_Request) *tikvpb.BatchCommandsResponse_Response {
-	switch c := r.Cmd.(type) {
-	case *tikvpb.BatchCommandsRequest_Request_RawGet:
-		return &tikvpb.BatchCommandsResponse_Response{Cmd: &tikvpb.BatchCommandsResponse_Response_RawGet{RawGet: &kvrpcpb.RawGetResponse{Value: c.RawGet.Key}}}
-	case *tikvpb.BatchCommandsRequest_Request_Get:
-		return &tikvpb.BatchCommandsResponse_Response{Cmd: &tikvpb.BatchCommandsResponse_Response_Get{Get: &kvrpcpb.GetResponse{Value: c.Get.Key}}}
-	case *tikvpb.BatchCommandsRequest_Request_Empty:
-		return &tikvpb.BatchCommandsResponse_Response{Cmd: &tikvpb.BatchCommandsResponse_Response_Empty{Empty: &tikvpb.BatchCommandsEmptyResponse{TestId: c.Empty.TestId}}}
-	case *tikvpb.BatchCommandsRequest_Request_ResolveLock:
-		// no payload field in the response: the start version travels back in the (otherwise unused) Abort text
-		return &tikvpb.BatchCommandsResponse_Response{Cmd: &tikvpb.BatchCommandsResponse_Response_ResolveLock{ResolveLock: &kvrpcpb.ResolveLockResponse{
-			Error: &kvrpcpb.KeyError{Abort: fmt.Sprintf("c%d", resolveLockFingerprint(c.ResolveLock))}}}}
-	case *tikvpb.BatchCommandsRequest_Request_Coprocessor:
-		return &tikvpb.BatchCommandsResponse_Response{Cmd: &tikvpb.BatchCommandsResponse_Response_Coprocessor{Coprocessor: &coprocessor.Response{Data: append([]byte(nil), c.Coprocessor.Data...)}}}
-	}
-	return &tikvpb.BatchCommandsResponse_Response{Cmd: &tikvpb.BatchCommandsResponse_Response_Empty{Empty: &tikvpb.BatchCommandsEmptyResponse{TestId: 1 << 62}}}
-}
-
-// resolveLockFingerprint identifies the COMMAND the server executed: start version (a multiple of 10) plus a digit for
-// the component in which it differs from the plain full-region request (see CallerSpec.Var).
-func resolveLockFingerprint(r *kvrpcpb.ResolveLockRequest) uint64 {
-	fp := r.GetStartVersion()
-	for _, t := range r.GetTxnInfos() {
-		fp += t.GetStatus()
-	}
-	fp += 3 * uint64(len(r.GetKeys()))
-	if r.GetCommitVersion() > r.GetStartVersion()+1 {
-		fp += 4 * (r.GetCommitVersion() - r.GetStartVersion() - 1)
-	}
-	if reg := r.GetContext().GetRegionId(); reg > 7 {
-		fp += 5 * (reg - 7)
-	}
-	return fp
-}
-
-func respPayload(r *tikvpb.BatchCommandsResponse_Response) int64 {
-	switch c := r.GetCmd().(type) {
-	case *tikvpb.BatchCommandsResponse_Response_RawGet:
-		return parsePay(c.RawGet.GetValue())
-	case *tikvpb.BatchCommandsResponse_Response_Get:
-		return parsePay(c.Get.GetValue())
-	case *tikvpb.BatchCommandsResponse_Response_Empty:
-		return int64(c.Empty.GetTestId())
-	case *tikvpb.BatchCommandsResponse_Response_Coprocessor:
-		return parsePay([]byte(c.Coprocessor.Data))
-	case *tikvpb.BatchCommandsResponse_Response_ResolveLock:
-		return parsePay([]byte(c.ResolveLock.GetError().GetAbort()))
-	}
-	return -2
-}
-
-func reqPayload(r *tikvpb.BatchCommandsRequest_Request) int64 {
-	switch c := r.GetCmd().(type) {
-	case *tikvpb.BatchCommandsRequest_Request_RawGet:
-		return parsePay(c.RawGet.GetKey())
-	case *tikvpb.BatchCommandsRequest_Request_Get:
-		return parsePay(c.Get.GetKey())
-	case *tikvpb.BatchCommandsRequest_Request_Empty:
-		return int64(c.Empty.GetTestId())
-	case *tikvpb.BatchCommandsRequest_Request_Coprocessor:
-		return parsePay(c.Coprocessor.GetData())
-	}
-	return -2
-}
-
-func parsePay(b []byte) int64 {
-	s := string(b)
-	if !strings.HasPrefix(s, "c") {
-		return -3
-	}
-	v, err := strconv.ParseInt(s[1:], 10, 64)
-	if err != nil {
-		return -3
-	}
-	return v
-}
-
-// unary handlers (non-batch path): echo after the caller's hold time, or fail when the call is cancelled
-func (s *server) hold(ctx context.Context, pay int64) error {
-	slow := 0
-	if pay >= 0 && int(pay) < len(s.sc.Callers) {
-		slow = s.sc.Callers[pay].SlowMs
-	}
-	if slow <= 0 || s.drain.Load() {
-		return nil
-	}
-	t := time.NewTimer(time.Duration(slow) * time.Millisecond)
-	defer t.Stop()
-	for {
-		select {
-		case <-t.C:
-			return nil
-		case <-ctx.Done():
-			return ctx.Err()
-		case <-time.After(5 * time.Millisecond):
-			if s.drain.Load() {
-				return nil
-			}
-		}
-	}
-}
-
-func (s *server) RawGet(ctx context.Context, req *kvrpcpb.RawGetRequest) (*kvrpcpb.RawGetResponse, error) {
-	if err := s.hold(ctx, parsePay(req.GetKey())); err != nil {
-		return nil, err
-	}
-	return &kvrpcpb.RawGetResponse{Value: req.GetKey()}, nil
-}
-
-func (s *server) KvGet(ctx context.Context, req *kvrpcpb.GetRequest) (*kvrpcpb.GetResponse, error) {
-	if err := s.hold(ctx, parsePay(req.GetKey())); err != nil {
-		return nil, err
-	}
-	return &kvrpcpb.GetResponse{Value: req.GetKey()}, nil
-}
-
-func (s *server) Coprocessor(ctx context.Context, req *coprocessor.Request) (*coprocessor.Response, error) {
-	if err := s.hold(ctx, parsePay(req.GetData())); err != nil {
-		return nil, err
-	}
-	return &coprocessor.Response{Data: append([]byte(nil), req.GetData()...)}, nil
-}
-
-func (s *server) BatchCommands(ss tikvpb.Tikv_BatchCommandsServer) error {
-	md, _ := metadata.FromIncomingContext(ss.Context())
-	st := &srvStream{kill: make(chan struct{}), wake: make(chan struct{}, 1)}
-	if v := md.Get(client.VerifForwardKey); len(v) > 0 {
-		st.host = v[0]
-	}
-	if v := md.Get(client.VerifConnIdxKey); len(v) > 0 {
-		st.conn = v[0]
-	}
-	s.mu.Lock()
-	s.streams[st] = true
-	s.mu.Unlock()
-	defer func() { s.mu.Lock(); delete(s.streams, st); s.mu.Unlock() }()
-	rdErr := make(chan error, 1)
-	go func() {
-		for {
-			req, err := ss.Recv()
-			if err != nil {
-				rdErr <- err
-				return
-			}
-			st.mu.Lock()
-			for i, id := range req.GetRequestIds() {
-				it := item{id, echo(req.Requests[i])}
-				slow := 0
-				if c := reqPayload(req.Requests[i]); c >= 0 && int(c) < len(s.sc.Callers) {
-					slow = s.sc.Callers[c].SlowMs
-				}
-				if _, ok := req.Requests[i].GetCmd().(*tikvpb.BatchCommandsRequest_Request_ResolveLock); ok {
-					slow = s.sc.HoldMs
-				}
-				if slow > 0 && !s.drain.Load() {
-					st.held = append(st.held, heldItem{it, time.Now().Add(time.Duration(slow) * time.Millisecond)})
-				} else {
-					st.pend = append(st.pend, it)
-				}
-			}
-			st.mu.Unlock()
-			select {
-			case st.wake <- struct{}{}:
-			default:
-			}
-		}
-	}()
-	done := make(chan struct{})
-	defer close(done)
-	go s.responder(ss, st, done)
-	select {
-	case <-st.kill:
-		return status.Error(codes.Unavailable, "verif: stream killed")
-	case err := <-rdErr:
-		return err
-	}
-}
-
-func (s *server) responder(ss tikvpb.Tikv_BatchCommandsServer, st *srvStream, done chan struct{}) {
-	sc := s.sc
-	for {
-		select {
-		case <-done:
-			return
-		case <-st.wake:
-		case <-time.After(2 * time.Millisecond):
-		}
-		draining := s.drain.Load()
-		st.mu.Lock()
-		if len(st.held) > 0 {
-			now := time.Now()
-			keep := st.held[:0]
-			for _, h := range st.held {
-				if draining || !now.Before(h.at) {
-					st.pend = append(st.pend, h.it)
-				} else {
-					keep = append(keep, h)
-				}
-			}
-			st.held = keep
-		}
-		n := len(st.pend)
-		st.mu.Unlock()
-		if n == 0 {
-			continue
-		}
-		var delay time.Duration
-		var reorder, dup, unknown bool
-		var k int
-		var bh []bool
-		s.rnd(func(r *rand.Rand) {
-			if sc.DelayUs > 0 {
-				delay = time.Duration(r.Int63n(sc.DelayUs+1)) * time.Microsecond
-			}
-			reorder = r.Float64() < sc.Reorder
-			dup = r.Float64() < sc.Dup
-			unknown = r.Float64() < sc.Unknown
-			k = 1 + r.Intn(n)
-			bh = make([]bool, n)
-			for i := range bh {
-				bh[i] = r.Float64() < sc.Blackhole
-			}
-		})
-		if draining {
-			delay, reorder, dup, unknown = 0, false, false, false
-		}
-		if delay > 0 {
-			select {
-			case <-done:
-				return
-			case <-time.After(delay):
-			}
-		}
-		st.mu.Lock()
-		var take []item
-		if reorder && !draining {
-			s.rnd(func(r *rand.Rand) { r.Shuffle(len(st.pend), func(i, j int) { st.pend[i], st.pend[j] = st.pend[j], st.pend[i] }) })
-			if k > len(st.pend) {
-				k = len(st.pend)
-			}
-			take = append(take, st.pend[:k]...)
-			st.pend = append([]item(nil), st.pend[k:]...)
-		} else {
-			take = st.pend
-			st.pend = nil
-		}
-		st.mu.Unlock()
-		resp := &tikvpb.BatchCommandsResponse{}
-		for i, it := range take {
-			if !draining && i < len(bh) && bh[i] {
-				continue // never answered
-			}
-			resp.RequestIds = append(resp.RequestIds, it.id)
-			resp.Responses = append(resp.Responses, it.resp)
-		}
-		if dup && len(resp.RequestIds) > 0 {
-			resp.RequestIds = append(resp.RequestIds, resp.RequestIds[0])
-			resp.Responses = append(resp.Responses, resp.Responses[0])
-		}
-		if unknown && len(take) > 0 {
-			resp.RequestIds = append(resp.RequestIds, take[0].id+(1<<40))
-			resp.Responses = append(resp.Responses, take[0].resp)
-		}
-		if len(resp.RequestIds) == 0 {
-			continue
-		}
-		if !draining && len(resp.RequestIds) == len(resp.Responses) && s.bad.Load() > 0 && s.bad.Add(-1) >= 0 {
-			// malformed batch: the last id comes without its response; the proper response follows later
-			n := len(resp.RequestIds) - 1
-			st.mu.Lock()
-			st.pend = append(st.pend, item{resp.RequestIds[n], resp.Responses[n]})
-			st.mu.Unlock()
-			resp.Responses = resp.Responses[:n]
-		}
-		if err := ss.Send(resp); err != nil {
-			return
-		}
-	}
-}
-
-func (s *server) start() error {
-	lc := net.ListenConfig{}
-	var lis net.Listener
-	var err error
-	for i := 0; i < 50; i++ {
-		a := s.addr
-		if a == "" {
-			a = "127.0.0.1:0"
-		}
-		lis, err = lc.Listen(context.Background(), "tcp", a)
-		if err == nil {
-			break
-		}
-		time.Sleep(10 * time.Millisecond)
-	}
-	if err != nil {
-		return err
-	}
-	s.addr = lis.Addr().String()
-	g := grpc.NewServer()
-	tikvpb.RegisterTikvServer(g, s)
-	s.mu.Lock()
-	s.g = g
-	s.mu.Unlock()
-	go g.Serve(lis)
-	return nil
-}
-
-func (s *server) stop() {
-	s.mu.Lock()
-	g := s.g
-	s.mu.Unlock()
-	if g != nil {
-		g.Stop()
-	}
-}
-
-func (s *server) killStreams(host string, all bool) {
-	s.mu.Lock()
-	var l []*srvStream
-	for st := range s.streams {
-		if all || st.host == host {
-			l = append(l, st)
-		}
-	}
-	s.mu.Unlock()
-	for _, st := range l {
-		st.doKill()
-	}
-}
-
-// ---------------------------------------------------------------- client side interceptor
-
-type injector struct {
-	suffix   string // "" for store 0, "@k" for store k: appended to the tag of every event of this pool
-	roundMu  sync.Mutex
-	lastRnd  string
-	srv      *server
-	refMu    sync.Mutex
-	refs     map[string]client.VerifEntryRef
-	sc       int64
-	hosts    []string
-	hostIdx  map[string]int
-	rpc      *client.RPCClient
-	addr     string
-	pool     atomic.Value // pool handle
-	incs     atomic.Int64
-	sendFail []atomic.Int64
-	recvFail []atomic.Int64
-	initFail []atomic.Int64
-	rvCount  atomic.Int64
-}
-
-// ev logs an event of this pool.
-func (in *injector) ev(f string, a ...interface{}) {
-	if i := strings.IndexByte(f, '\t'); i > 0 {
-		f = f[:i] + in.suffix + f[i:]
-	} else {
-		f += in.suffix
-	}
-	evs(in.sc, f, a...)
-}
-
-// evf logs an event whose text (a table snapshot) is computed while the log is locked, so that the snapshot is
-// ordered with the other events.
-func (in *injector) evf(mk func() string) {
-	outMu.Lock()
-	if activeSc == in.sc {
-		f := mk()
-		if i := strings.IndexByte(f, '\t'); i > 0 {
-			f = f[:i] + in.suffix + f[i:]
-		}
-		out.WriteString(f)
-		out.WriteByte('\n')
-	}
-	outMu.Unlock()
-}
-
-func (in *injector) handle() interface{} {
-	h := in.pool.Load()
-	if h == nil {
-		if p := client.VerifPool(in.rpc, in.addr); p != nil {
-			in.pool.Store(p)
-			h = p
-		}
-	}
-	return h
-}
-
-// dumpRound logs the builder state of the current buildWithLimit round once (send loop goroutine only).
-func (in *injector) dumpRound() {
-	h := in.handle()
-	if h == nil {
-		return
-	}
-	r := client.VerifRoundDump(h)
-	if len(r.Built) == 0 {
-		return
-	}
-	sort.Slice(r.Built, func(i, j int) bool { return r.Built[i].ID < r.Built[j].ID })
-	key := fmt.Sprintf("%d/%d", r.IDAlloc, r.Built[0].ID)
-	in.roundMu.Lock()
-	dup := key == in.lastRnd
-	in.lastRnd = key
-	in.roundMu.Unlock()
-	if dup {
-		return
-	}
-	var b, l strings.Builder
-	for i, it := range r.Built {
-		if i > 0 {
-			b.WriteByte(',')
-		}
-		fmt.Fprintf(&b, "%d:%d:%d", it.ID, it.Caller, in.hostIdx[it.Host])
-	}
-	for i, it := range r.Left {
-		if i > 0 {
-			l.WriteByte(',')
-		}
-		c := 0
-		if it.Canceled {
-			c = 1
-		}
-		fmt.Fprintf(&l, "%d:%d:%d", it.Caller, it.Pri, c)
-	}
-	in.ev("ROUND\t%d\tbuilt=%s\tleft=%s", r.IDAlloc, b.String(), l.String())
-}
-
-func (in *injector) tabOf(conn string, host string) string {
-	h := in.pool.Load()
-	if h == nil {
-		if p := client.VerifPool(in.rpc, in.addr); p != nil {
-			in.pool.Store(p)
-			h = p
-		}
-	}
-	if h == nil {
-		return "?"
-	}
-	snap := client.VerifSnapshotPool(h)
-	var ids []uint64
-	for _, e := range snap.Entries {
-		if e.Conn == conn && e.Host == host {
-			ids = append(ids, e.ID)
-		}
-	}
-	sort.Slice(ids, func(i, j int) bool { return ids[i] < ids[j] })
-	var sb strings.Builder
-	sb.WriteString("-")
-	for _, id := range ids {
-		fmt.Fprintf(&sb, ",%d", id)
-	}
-	return sb.String()
-}
-
-// capture remembers the entries that are in flight right now (called from SendMsg: send() has just stored them).
-func (in *injector) capture() {
-	h := in.pool.Load()
-	if h == nil {
-		in.tabOf("0", "")
-		if h = in.pool.Load(); h == nil {
-			return
-		}
-	}
-	in.refMu.Lock()
-	for _, r := range client.VerifEntryRefs(h) {
-		in.refs[fmt.Sprintf("%s:%d", r.Conn, r.ID)] = r
-	}
-	in.refMu.Unlock()
-}
-
-// canceledWithValue lists conn:id:canceled:buffered for every entry that was ever seen in flight.
-func (in *injector) canceledWithValue() string {
-	in.refMu.Lock()
-	defer in.refMu.Unlock()
-	var l []string
-	for k, r := range in.refs {
-		c, n := r.State()
-		ci := 0
-		if c {
-			ci = 1
-		}
-		l = append(l, fmt.Sprintf("%s:%d:%d", k, ci, n))
-	}
-	sort.Strings(l)
-	return "cres=" + strings.Join(l, ",")
-}
-
-type wrapStream struct {
-	grpc.ClientStream
-	in   *injector
-	conn string
-	host int
-	inc  int64
-}
-
-func (in *injector) intercept(ctx context.Context, desc *grpc.StreamDesc, cc *grpc.ClientConn, method string, streamer grpc.Streamer, opts ...grpc.CallOption) (grpc.ClientStream, error) {
-	if !strings.HasSuffix(method, "/BatchCommands") {
-		return streamer(ctx, desc, cc, method, opts...)
-	}
-	md, _ := metadata.FromOutgoingContext(ctx)
-	host, conn := "", "?"
-	if v := md.Get(client.VerifForwardKey); len(v) > 0 {
-		host = v[0]
-	}
-	if v := md.Get(client.VerifConnIdxKey); len(v) > 0 {
-		conn = v[0]
-	}
-	hi := in.hostIdx[host]
-	if h := in.handle(); h != nil && !client.VerifStreamExists(h, conn, host) {
-		in.dumpRound() // initBatchClient inside send(): we are on the send loop goroutine
-	}
-	if in.initFail[hi].Load() > 0 && in.initFail[hi].Add(-1) >= 0 {
-		in.ev("NSF\t%s\t%d\tinjected", conn, hi)
-		return nil, errors.New("verif-initfail")
-	}
-	cs, err := streamer(ctx, desc, cc, method, opts...)
-	if err != nil {
-		in.ev("NSF\t%s\t%d\treal", conn, hi)
-		return nil, err
-	}
-	inc := in.incs.Add(1)
-	in.evf(func() string { return fmt.Sprintf("NS\t%s\t%d\t%d\t%s", conn, hi, inc, in.tabOf(conn, host)) })
-	return &wrapStream{ClientStream: cs, in: in, conn: conn, host: hi, inc: inc}, nil
-}
-
-func (w *wrapStream) SendMsg(m interface{}) error {
-	req, ok := m.(*tikvpb.BatchCommandsRequest)
-	if !ok {
-		return w.ClientStream.SendMsg(m)
-	}
-	// the commands are pre-encoded (encodedBatchCmd): decode a marshalled copy to read the payloads
-	var sb strings.Builder
-	if b, err := req.Marshal(); err == nil {
-		var dec tikvpb.BatchCommandsRequest
-		if dec.Unmarshal(b) == nil {
-			for i, id := range dec.RequestIds {
-				p := int64(-4)
-				if i < len(dec.Requests) {
-					p = reqPayload(dec.Requests[i])
-				}
-				if i > 0 {
-					sb.WriteByte(',')
-				}
-				fmt.Fprintf(&sb, "%d:%d", id, p)
-			}
-		}
-	}
-	w.in.capture()
-	w.in.dumpRound()
-	w.in.ev("SB\t%s\t%d\t%d\t%s", w.conn, w.host, w.inc, sb.String())
-	if w.in.sendFail[w.host].Load() > 0 && w.in.sendFail[w.host].Add(-1) >= 0 {
-		w.in.ev("SE\t%s\t%d\t%d\terr", w.conn, w.host, w.inc)
-		return errors.New("verif-sendfail")
-	}
-	err := w.ClientStream.SendMsg(m)
-	if err != nil {
-		w.in.ev("SE\t%s\t%d\t%d\terr", w.conn, w.host, w.inc)
-	} else {
-		w.in.ev("SE\t%s\t%d\t%d\tok", w.conn, w.host, w.inc)
-	}
-	return err
-}
-
-func (w *wrapStream) RecvMsg(m interface{}) error {
-	// the recv loop is back for the next message: everything it dispatched is out of the table by now
-	w.in.evf(func() string { return fmt.Sprintf("RD\t%s\t%d\t%d\t%s", w.conn, w.host, w.inc, w.in.tabOf(w.conn, hostName(w.host))) })
-	err := w.ClientStream.RecvMsg(m)
-	if err == nil && w.in.recvFail[w.host].Load() > 0 && w.in.recvFail[w.host].Add(-1) >= 0 {
-		err = errors.New("verif-recvfail") // the received message is dropped
-	}
-	if err != nil {
-		w.in.ev("RE\t%s\t%d\t%d", w.conn, w.host, w.inc)
-		return err
-	}
-	if resp, ok := m.(*tikvpb.BatchCommandsResponse); ok {
-		var sb strings.Builder
-		for i, id := range resp.RequestIds {
-			p := int64(-9) // an id without a response: batchRecvLoop panics on it if the id is in the table
-			if i < len(resp.Responses) {
-				p = respPayload(resp.Responses[i])
-			}
-			if i > 0 {
-				sb.WriteByte(',')
-			}
-			fmt.Fprintf(&sb, "%d:%d", id, p)
-		}
-		w.in.rvCount.Add(1)
-		w.in.ev("RV\t%s\t%d\t%d\t%s", w.conn, w.host, w.inc, sb.String())
-	}
-	return nil
-}
-
-// ---------------------------------------------------------------- running one scenario
-
-func hostName(i int) string {
-	if i == 0 {
-		return ""
-	}
-	return fmt.Sprintf("fwd-store-%d", i)
-}
-
-func mkReq(c int, cs CallerSpec) *tikvrpc.Request {
-	pay := []byte(fmt.Sprintf("c%d", c))
-	var req *tikvrpc.Request
-	switch cs.Kind {
-	case 1:
-		req = tikvrpc.NewRequest(tikvrpc.CmdGet, &kvrpcpb.GetRequest{Key: pay})
-	case 2:
-		req = tikvrpc.NewRequest(tikvrpc.CmdEmpty, &tikvpb.BatchCommandsEmptyRequest{TestId: uint64(c)})
-	case 3:
-		req = tikvrpc.NewRequest(tikvrpc.CmdCop, &coprocessor.Request{Data: pay})
-	case 4:
-		// full-region ResolveLock (no keys, no txn infos): what reqCollapse collapses by (region, start version, async)
-		rl := &kvrpcpb.ResolveLockRequest{StartVersion: uint64(cs.Key), CommitVersion: uint64(cs.Key) + 1}
-		region := uint64(7)
-		switch cs.Var {
-		case 1:
-			rl.TxnInfos = []*kvrpcpb.TxnInfo{{Txn: uint64(cs.Key), Status: 1}}
-		case 2:
-			rl.TxnInfos = []*kvrpcpb.TxnInfo{{Txn: uint64(cs.Key), Status: 2}}
-		case 3:
-			rl.Keys = [][]byte{[]byte("k")}
-		case 4:
-			rl.CommitVersion++
-		case 5:
-			region = 8
-		}
-		req = tikvrpc.NewRequest(tikvrpc.CmdResolveLock, rl)
-		req.Context.RegionId = region
-	default:
-		req = tikvrpc.NewRequest(tikvrpc.CmdRawGet, &kvrpcpb.RawGetRequest{Key: pay})
-	}
-	req.StoreTp = tikvrpc.TiKV
-	req.ForwardedHost = hostName(cs.Host)
-	if cs.Pri > 0 {
-		req.ResourceControlContext = &kvrpcpb.ResourceControlContext{OverridePriority: uint64(cs.Pri)}
-	}
-	return req
-}
-
-func respPay(resp *tikvrpc.Response) (int64, string) {
-	if resp == nil || resp.Resp == nil {
-		return -1, "nil"
-	}
-	switch r := resp.Resp.(type) {
-	case *kvrpcpb.RawGetResponse:
-		return parsePay(r.GetValue()), "rawget"
-	case *kvrpcpb.GetResponse:
-		return parsePay(r.GetValue()), "get"
-	case *tikvpb.BatchCommandsEmptyResponse:
-		return int64(r.GetTestId()), "empty"
-	case *coprocessor.Response:
-		return parsePay([]byte(r.Data)), "cop"
-	case *kvrpcpb.ResolveLockResponse:
-		return parsePay([]byte(r.GetError().GetAbort())), "resolvelock"
-	}
-	return -2, fmt.Sprintf("%T", resp.Resp)
-}
-
-var kindNames = []string{"rawget", "get", "empty", "cop", "resolvelock"}
-
-var injectedPanics, injectedRecvPanics atomic.Int64
-
-// goExecutor runs scheduled callbacks on their own goroutine.
-type goExecutor struct{}
-
-func (goExecutor) Go(f func()) { go f() }
-func (goExecutor) Append(fs ...func()) {
-	for _, f := range fs {
-		go f()
-	}
-}
-
-func errClass(err error) string {
-	cause := errors.Cause(err)
-	msg := err.Error()
-	switch {
-	case cause == context.Canceled:
-		return "ctx"
-	case cause == context.DeadlineExceeded:
-		return "timeout"
-	case strings.Contains(msg, "batchConn closed") || strings.Contains(msg, "rpcClient is closed") || strings.Contains(msg, "batch client closed"):
-		return "closed"
-	case strings.Contains(msg, "verif-initfail"):
-		return "fail:init"
-	case strings.Contains(msg, "no available connections"):
-		return "fail:noconn"
-	case strings.Contains(msg, "rpcClient is idle"):
-		return "fail:idle"
-	}
-	return "fail:other"
-}
-
-func counterVal(label string) float64 {
-	m := &dto.Metric{}
-	if err := metrics.TiKVPanicCounter.WithLabelValues(label).Write(m); err != nil {
-		return -1
-	}
-	return m.GetCounter().GetValue()
-}
-
-func runScenario(sc *Scenario) {
-	js, _ := json.Marshal(sc)
-	outMu.Lock()
-	activeSc = int64(sc.ID)
-	outMu.Unlock()
-	defer func() { outMu.Lock(); activeSc = 0; outMu.Unlock() }()
-	ev("SC\t%d\t%s", sc.ID, js)
-	restore := config.UpdateGlobal(func(conf *config.Config) {
-		conf.TiKVClient.GrpcConnectionCount = sc.Conns
-		if sc.Limit > 0 {
-			conf.TiKVClient.MaxConcurrencyRequestLimit = sc.Limit
-		}
-		if sc.MaxBatch > 0 {
-			conf.TiKVClient.MaxBatchSize = sc.MaxBatch
-		}
-		if sc.NoBatch {
-			conf.TiKVClient.MaxBatchSize = 0
-		}
-		if sc.Policy != "" {
-			conf.TiKVClient.BatchPolicy = sc.Policy
-		}
-		if sc.WaitUs > 0 {
-			conf.TiKVClient.MaxBatchWaitTime = time.Duration(sc.WaitUs) * time.Microsecond
-			conf.TiKVClient.OverloadThreshold = 0
-		}
-	})
-	defer restore()
-	npools := sc.Pools
-	if npools <= 0 {
-		npools = 1
-	}
-	var srvs []*server
-	var ins []*injector
-	byTarget := map[string]*injector{}
-	for k := 0; k < npools; k++ {
-		sv := &server{sc: sc, rng: rand.New(rand.NewSource(sc.Seed + int64(k))), streams: map[*srvStream]bool{}}
-		if err := sv.start(); err != nil {
-			ev("HARNESS\tserver start failed: %v", err)
-			return
-		}
-		defer sv.stop()
-		inj := &injector{sc: int64(sc.ID), hostIdx: map[string]int{}, addr: sv.addr, refs: map[string]client.VerifEntryRef{}, srv: sv}
-		if k > 0 {
-			inj.suffix = fmt.Sprintf("@%d", k)
-		}
-		for i := 0; i < sc.NHosts; i++ {
-			inj.hosts = append(inj.hosts, hostName(i))
-			inj.hostIdx[hostName(i)] = i
-		}
-		inj.sendFail = make([]atomic.Int64, sc.NHosts)
-		inj.recvFail = make([]atomic.Int64, sc.NHosts)
-		inj.initFail = make([]atomic.Int64, sc.NHosts)
-		srvs, ins = append(srvs, sv), append(ins, inj)
-		byTarget[sv.addr] = inj
-	}
-	in := ins[0]
-	dispatch := func(ctx context.Context, desc *grpc.StreamDesc, cc *grpc.ClientConn, method string, streamer grpc.Streamer, opts ...grpc.CallOption) (grpc.ClientStream, error) {
-		if inj, ok := byTarget[cc.Target()]; ok {
-			return inj.intercept(ctx, desc, cc, method, streamer, opts...)
-		}
-		return in.intercept(ctx, desc, cc, method, streamer, opts...)
-	}
-	rpc := client.NewRPCClient(client.WithGRPCDialOptions(grpc.WithStreamInterceptor(dispatch)))
-	for _, inj := range ins {
-		inj.rpc = rpc
-	}
-	defer rpc.Close()
-	var cl client.Client = rpc
-	if sc.Collapse {
-		cl = client.NewReqCollapse(client.NewInterceptedClient(rpc)) // the stack tikv/kv.go puts on top of the batched client
-	}
-	var loop *async.RunLoop
-	if sc.RunLoop {
-		// one run loop for all asynchronous calls of the scenario, driven by one goroutine (like a txn's run loop)
-		loop = async.NewRunLoop()
-		lctx, lcancel := context.WithCancel(context.Background())
-		loopDone := make(chan struct{})
-		go func() {
-			defer close(loopDone)
-			for lctx.Err() == nil {
-				loop.Exec(lctx)
-			}
-		}()
-		defer func() { lcancel(); <-loopDone }()
-	}
-	p0recv, p0send := counterVal(metrics.LabelBatchRecvLoop), counterVal(metrics.LabelBatchSendLoop)
-	sp0 := atomic.LoadInt64(&client.BatchSendLoopPanicCounter)
-	inj0 := injectedPanics.Load()
-	noconn0 := 0.0
-	{
-		m := &dto.Metric{}
-		if metrics.TiKVNoAvailableConnectionCounter.Write(m) == nil {
-			noconn0 = m.GetCounter().GetValue()
-		}
-	}
-	injr0 := injectedRecvPanics.Load()
-
-	t0 := time.Now()
-	var wg sync.WaitGroup
-	returned := make([]atomic.Bool, len(sc.Callers))
-	cancels := make([]atomic.Value, len(sc.Callers))
-	var wgLong sync.WaitGroup
-	nLong := 0
-	maxTo := 0
-	for c := range sc.Callers {
-		cs := sc.Callers[c]
-		if cs.TimeoutMs > maxTo && !cs.Long {
-			maxTo = cs.TimeoutMs
-		}
-		wg.Add(1)
-		if cs.Long {
-			nLong++
-			wgLong.Add(1)
-		}
-		go func(c int, cs CallerSpec) {
-			defer wg.Done()
-			if cs.Long {
-				defer wgLong.Done()
-			}
-			if d := time.Duration(cs.StartUs)*time.Microsecond - time.Since(t0); d > 0 {
-				time.Sleep(d)
-			}
-			ctx, cancel := context.WithCancel(context.WithValue(context.Background(), client.VerifCallerKey{}, int64(c)))
-			defer cancel()
-			cancels[c].Store(cancel)
-			addr := srvs[cs.Pool%npools].addr
-			timeout := time.Duration(cs.TimeoutMs) * time.Millisecond
-			if cs.Long {
-				timeout = 30 * time.Second
-			}
-			if cs.CancelUs >= 0 {
-				tm := time.AfterFunc(time.Duration(cs.CancelUs)*time.Microsecond, cancel)
-				defer tm.Stop()
-			}
-			req := mkReq(c, cs)
-			mode := "sync"
-			if cs.Async {
-				mode = "async"
-			}
-			if cs.Long {
-				mode += "-long"
-			}
-			exp, willCancel := int64(c), 0
-			if cs.Kind == 4 {
-				exp = int64(cs.Key + cs.Var) // the fingerprint of its own command (shared by everybody it may be collapsed with)
-			}
-			if cs.CancelUs >= 0 {
-				willCancel = 1
-			}
-			evs(int64(sc.ID), "SUB\t%d\t%d\t%d\t%s\t%d\t%s\t%d\t%d\t%d", c, cs.Host, cs.Pri, kindNames[cs.Kind%5], cs.TimeoutMs, mode, cs.Pool%npools, exp, willCancel)
-			st := time.Now()
-			var resp *tikvrpc.Response
-			var err error
-			func() {
-				defer func() {
-					if r := recover(); r != nil {
-						err = fmt.Errorf("verif-panic: %v", r)
-						evs(int64(sc.ID), "PANIC\t%d\t%v", c, r)
-					}
-				}()
-				if !cs.Async {
-					resp, err = cl.SendRequest(ctx, addr, req, timeout)
-					return
-				}
-				// asynchronous API: the call is over when the callback ran; a second invocation is a second return
-				actx := ctx
-				if !cs.Long {
-					var c2 context.CancelFunc
-					actx, c2 = context.WithTimeout(ctx, timeout)
-					defer c2()
-				}
-				type res struct {
-					r *tikvrpc.Response
-					e error
-				}
-				ch := make(chan res, 4)
-				var calls atomic.Int32
-				var ex async.Executor = goExecutor{}
-				if loop != nil {
-					ex = loop
-				}
-				cb := async.NewCallback(ex, func(r *tikvrpc.Response, e error) {
-					if calls.Add(1) > 1 {
-						evs(int64(sc.ID), "RET\t%d\tfail:second-callback\t-1\t0\t0\t-", c)
-						return
-					}
-					ch <- res{r, e}
-					if cs.CbMs > 0 {
-						time.Sleep(time.Duration(cs.CbMs) * time.Millisecond) // the run loop stays in this round meanwhile
-					}
-				})
-				cl.SendRequestAsync(actx, addr, req, cb)
-				got := <-ch
-				resp, err = got.r, got.e
-			}()
-			el := time.Since(st)
-			returned[c].Store(true)
-			late := 0
-			if !cs.Long && el > time.Duration(20*cs.TimeoutMs)*time.Millisecond+2*time.Second {
-				late = 1
-			}
-			if err != nil {
-				evs(int64(sc.ID), "RET\t%d\t%s\t-1\t%d\t%d\t%s", c, errClass(err), late, el.Milliseconds(), strings.ReplaceAll(strings.ReplaceAll(firstN(err.Error(), 120), "\t", " "), "\n", " "))
-			} else {
-				p, ty := respPay(resp)
-				cls := "ok"
-				if ty != kindNames[cs.Kind%5] {
-					cls = "ok-wrongtype:" + ty
-				}
-				evs(int64(sc.ID), "RET\t%d\t%s\t%d\t%d\t%d\t-", c, cls, p, late, el.Milliseconds())
-			}
-		}(c, cs)
-	}
-	// fault schedule
-	faultsDone := make(chan struct{})
-	go func() {
-		defer close(faultsDone)
-		fs := append([]Fault(nil), sc.Faults...)
-		sort.SliceStable(fs, func(i, j int) bool { return fs[i].AtUs < fs[j].AtUs })
-		for _, f := range fs {
-			if d := time.Duration(f.AtUs)*time.Microsecond - time.Since(t0); d > 0 {
-				time.Sleep(d)
-			}
-			n := int64(f.N)
-			if n <= 0 {
-				n = 1
-			}
-			srv, in := srvs[f.Pool%npools], ins[f.Pool%npools]
-			switch f.Kind {
-			case "recvpanic":
-				// the next n response batches of this store carry one id without its response: batchRecvLoop
-				// panics on it (index out of range), recovers and restarts itself on the same stream
-				srv.bad.Store(n)
-				ev("INJ\trecvpanic\t%d", n)
-			case "failpanic":
-				// the repo's own failpoint at the top of failPendingRequests
-				injectedRecvPanics.Add(n)
-				ev("INJ\tfailpanic\t%d", n)
-				if err := failpoint.Enable("tikvclient/panicInFailPendingRequests", fmt.Sprintf("%d*panic(\"verif fail-pending panic\")", n)); err != nil {
-					ev("HARNESS\tfailpoint enable failed: %v", err)
-				}
-			case "kill":
-				srv.killStreams(hostName(f.Host), false)
-			case "killall":
-				srv.killStreams("", true)
-			case "restart":
-				srv.stop()
-				time.Sleep(time.Duration(n) * time.Millisecond)
-				if err := srv.start(); err != nil {
-					ev("HARNESS\tserver restart failed: %v", err)
-				}
-			case "sendpanic":
-				// the repo's own failpoint at the top of getClientAndSend: the next n batches panic inside
-				// batchSendLoop, which recovers and restarts itself
-				injectedPanics.Add(n)
-				ev("INJ\tsendpanic\t%d", n)
-				if err := failpoint.Enable("tikvclient/mockBatchClientSendDelay", fmt.Sprintf("%d*panic(\"verif send loop panic\")", n)); err != nil {
-					ev("HARNESS\tfailpoint enable failed: %v", err)
-				}
-			case "idle":
-				// the idle timer of the pool expires now: batchSendLoop marks the conn idle and returns
-				ev("INJ\tidle\t%d", n)
-				client.VerifFireIdleTimer(rpc, srv.addr, time.Duration(n)*time.Microsecond)
-			case "senddelay":
-				// the repo's failpoint at the top of getClientAndSend with an int value: every batch is held for n ms
-				// before buildWithLimit, so the requests arriving meanwhile land in ONE later build
-				ev("INJ\tsenddelay\t%d", n)
-				if err := failpoint.Enable("tikvclient/mockBatchClientSendDelay", fmt.Sprintf("return(%d)", n)); err != nil {
-					ev("HARNESS\tfailpoint enable failed: %v", err)
-				}
-			case "recvfail":
-				in.recvFail[f.Host].Store(n)
-			case "sendfail":
-				in.sendFail[f.Host].Store(n)
-			case "initfail":
-				in.initFail[f.Host].Store(n)
-			case "close":
-				for _, inj := range ins {
-					inj.tabOf("0", "") // make sure the pool handles are captured before they are dropped
-				}
-				ev("CLOSE\tclient")
-				rpc.Close()
-			case "closeaddr":
-				in.tabOf("0", "")
-				ev("CLOSE\taddr")
-				rpc.CloseAddr(srv.addr)
-			}
-		}
-	}()
-	allDone := make(chan struct{})
-	go func() { wg.Wait(); close(allDone) }()
-	if nLong > 0 {
-		// calls without a (short) deadline: once the last fault is over the server is healthy and answers
-		// everything it holds, so every such call must complete (answered, or failed by the stream error) within
-		// the drain window; the ones that do not are reported and then cancelled
-		<-faultsDone
-		lastStart := time.Duration(0)
-		for _, cs := range sc.Callers {
-			if d := time.Duration(cs.StartUs) * time.Microsecond; d > lastStart {
-				lastStart = d
-			}
-		}
-		if d := lastStart + 20*time.Millisecond - time.Since(t0); d > 0 {
-			time.Sleep(d)
-		}
-		for _, sv := range srvs {
-			sv.drain.Store(true)
-		}
-		longDone := make(chan struct{})
-		go func() { wgLong.Wait(); close(longDone) }()
-		const drainWindow = 4 * time.Second
-		select {
-		case <-longDone:
-		case <-time.After(drainWindow):
-			for c := range returned {
-				if sc.Callers[c].Long && !returned[c].Load() {
-					ev("HANG\t%d\t%d\tno-deadline call not completed in the drain phase", c, drainWindow.Milliseconds())
-				}
-			}
-			for c := range returned {
-				if sc.Callers[c].Long && !returned[c].Load() {
-					if f, ok := cancels[c].Load().(context.CancelFunc); ok {
-						f()
-					}
-				}
-			}
-		}
-	}
-	limit := time.Duration(25*maxTo)*time.Millisecond + 5*time.Second
-	select {
-	case <-allDone:
-	case <-time.After(limit):
-		for c := range returned {
-			if !returned[c].Load() {
-				ev("HANG\t%d\t%d", c, limit.Milliseconds())
-			}
-		}
-	}
-	<-faultsDone
-	failpoint.Disable("tikvclient/mockBatchClientSendDelay")
-	failpoint.Disable("tikvclient/panicInFailPendingRequests")
-	// quiescence: let the servers answer what they still hold, wait until nothing moves any more
-	for k := range srvs {
-		srvs[k].drain.Store(true)
-		ins[k].tabOf("0", "")
-	}
-	stable, last := 0, ""
-	for i := 0; i < 200 && stable < 4; i++ {
-		time.Sleep(5 * time.Millisecond)
-		cur := ""
-		for _, inj := range ins {
-			cur += fmt.Sprintf("%d|%s;", inj.rvCount.Load(), snapString(inj))
-		}
-		if cur == last {
-			stable++
-		} else {
-			stable, last = 0, cur
-		}
-	}
-	{
-		m := &dto.Metric{}
-		if metrics.TiKVNoAvailableConnectionCounter.Write(m) == nil {
-			ev("STAT\tnoconn=%g", m.GetCounter().GetValue()-noconn0)
-		}
-	}
-	for k := len(ins) - 1; k >= 0; k-- { // store 0 last: its END line closes the scenario
-		ins[k].ev("CRES\t%s", ins[k].canceledWithValue())
-		ins[k].ev("END\t%s\t%g\t%g\t%d\t%d\t%d", snapString(ins[k]), counterVal(metrics.LabelBatchRecvLoop)-p0recv, counterVal(metrics.LabelBatchSendLoop)-p0send,
-			atomic.LoadInt64(&client.BatchSendLoopPanicCounter)-sp0, injectedPanics.Load()-inj0, injectedRecvPanics.Load()-injr0)
-	}
-}
-
-func snapString(in *injector) string {
-	h := in.pool.Load()
-	if h == nil {
-		return "nopool"
-	}
-	s := client.VerifSnapshotPool(h)
-	sort.Slice(s.Entries, func(i, j int) bool {
-		if s.Entries[i].Conn != s.Entries[j].Conn {
-			return s.Entries[i].Conn < s.Entries[j].Conn
-		}
-		return s.Entries[i].ID < s.Entries[j].ID
-	})
-	var sb strings.Builder
-	sb.WriteString("tab=")
-	for i, e := range s.Entries {
-		if i > 0 {
-			sb.WriteByte(',')
-		}
-		c := 0
-		if e.Canceled {
-			c = 1
-		}
-		fmt.Fprintf(&sb, "%s:%d:%d:%d", e.Conn, e.ID, in.hostIdx[e.Host], c)
-	}
-	sb.WriteString("\tsent=")
-	for i, v := range s.Sent {
-		if i > 0 {
-			sb.WriteByte(',')
-		}
-		fmt.Fprintf(&sb, "%d", v)
-	}
-	fmt.Fprintf(&sb, "\tidalloc=%d", s.IDAlloc)
-	return sb.String()
-}
-
-func firstN(s string, n int) string {
-	if len(s) > n {
-		return s[:n]
-	}
-	return s
-}
-
-// ---------------------------------------------------------------- direct differential on util/async.RunLoop
-// Random scripts: callbacks 0..n-1, some appended up front, the others appended by a running callback (re-entrant Append,
-// one call or several) -- mode "seq" (one goroutine: the execution order is determined) -- or, mode "conc", additionally by
-// a second goroutine while Exec is running.  Line: RL <mode> <init> <spawn t:a,b|..> <observed order>.
-func runLoopDifferential(r *rand.Rand, n int) {
-	for k := 0; k < n; k++ {
-		mode := "seq"
-		if k%3 == 2 {
-			mode = "conc"
-		}
-		total := 3 + r.Intn(20)
-		ninit := 1 + r.Intn(minInt(total, 6))
-		spawn := map[int][]int{}
-		next := ninit
-		for t := 0; t < next && next < total; t++ { // t < next: only callbacks that exist spawn others
-			m := r.Intn(4)
-			for j := 0; j < m && next < total; j++ {
-				spawn[t] = append(spawn[t], next)
-				next++
-			}
-		}
-		for next < total { // whoever is left is spawned by the last callback that spawns anything (or callback 0)
-			spawn[0] = append(spawn[0], next)
-			next++
-		}
-		extra := 0
-		if mode == "conc" {
-			extra = 1 + r.Intn(6)
-		}
-		loop := async.NewRunLoop()
-		var mu sync.Mutex
-		var order []int
-		var mk func(t int) func()
-		oneByOne := r.Intn(2) == 0
-		mk = func(t int) func() {
-			return func() {
-				mu.Lock()
-				order = append(order, t)
-				mu.Unlock()
-				if mode == "conc" {
-					time.Sleep(time.Duration(r.Intn(150)) * time.Microsecond)
-				}
-				var fs []func()
-				for _, c := range spawn[t] {
-					fs = append(fs, mk(c))
-				}
-				if oneByOne {
-					for _, f := range fs {
-						loop.Append(f)
-					}
-				} else {
-					loop.Append(fs...)
-				}
-			}
-		}
-		var init []func()
-		for t := 0; t < ninit; t++ {
-			init = append(init, mk(t))
-		}
-		loop.Append(init...)
-		ctx, cancel := context.WithTimeout(context.Background(), 2*time.Second)
-		var wg sync.WaitGroup
-		if extra > 0 {
-			wg.Add(1)
-			go func() {
-				defer wg.Done()
-				for j := 0; j < extra; j++ {
-					time.Sleep(time.Duration(50+j*40) * time.Microsecond)
-					loop.Append(mk(1000 + j))
-				}
-			}()
-		}
-		done := func() bool { mu.Lock(); defer mu.Unlock(); return len(order) >= total+extra }
-		for !done() && ctx.Err() == nil {
-			loop.Exec(ctx)
-		}
-		cancel()
-		wg.Wait()
-		var ib, sb, ob strings.Builder
-		for t := 0; t < ninit; t++ {
-			fmt.Fprintf(&ib, "%d,", t)
-		}
-		keys := make([]int, 0, len(spawn))
-		for t := range spawn {
-			keys = append(keys, t)
-		}
-		sort.Ints(keys)
-		for _, t := range keys {
-			fmt.Fprintf(&sb, "%d:", t)
-			for _, c := range spawn[t] {
-				fmt.Fprintf(&sb, "%d,", c)
-			}
-			sb.WriteByte('|')
-		}
-		mu.Lock()
-		for _, t := range order {
-			fmt.Fprintf(&ob, "%d,", t)
-		}
-		mu.Unlock()
-		outMu.Lock()
-		fmt.Fprintf(out, "RL\t%s\t%s\t%s\t%d\t%s\n", mode, ib.String(), sb.String(), extra, ob.String())
-		outMu.Unlock()
-	}
-}
-
-func minInt(a, b int) int {
-	if a < b {
-		return a
-	}
-	return b
-}
-
-// ---------------------------------------------------------------- scenario generation
-
-func genScenario(r *rand.Rand, id int, class string) *Scenario {
-	sc := &Scenario{ID: id, Class: class, Seed: r.Int63(), Conns: 1, NHosts: 1, MaxBatch: 128}
-	n := []int{1, 2, 3, 5, 8, 13, 24, 40, 64}[r.Intn(9)]
-	normalTo := 3000
-	addCallers := func(n int, f func(i int, cs *CallerSpec)) {
-		for i := 0; i < n; i++ {
-			cs := CallerSpec{Host: r.Intn(sc.NHosts), Kind: r.Intn(4), TimeoutMs: normalTo, CancelUs: -1, StartUs: r.Int63n(20000)}
-			if r.Intn(4) == 0 {
-				cs.Pri = []int{1, 5, 9, 10, 11, 16}[r.Intn(6)]
-			}
-			if f != nil {
-				f(i, &cs)
-			}
-			sc.Callers = append(sc.Callers, cs)
-		}
-	}
-	sc.DelayUs = []int64{0, 200, 2000, 10000}[r.Intn(4)]
-	sc.Reorder = []float64{0, 0.5, 1}[r.Intn(3)]
-	switch class {
-	case "plain": // concurrency, priorities, request mixes, reordering, duplicates, unknown ids
-		sc.Dup = []float64{0, 0.3}[r.Intn(2)]
-		sc.Unknown = []float64{0, 0.3}[r.Intn(2)]
-		sc.Policy = []string{"", config.BatchPolicyBasic, config.BatchPolicyPositive}[r.Intn(3)]
-		if r.Intn(3) == 0 {
-			sc.Limit = int64(1 + r.Intn(6))
-		}
-		if r.Intn(3) == 0 {
-			sc.WaitUs = 500
-		}
-		if r.Intn(3) == 0 {
-			sc.MaxBatch = uint(1 + r.Intn(8))
-		}
-		addCallers(n, nil)
-	case "forward": // several forwarded hosts share one table; one stream is killed while the others carry traffic
-		sc.NHosts = 2 + r.Intn(3)
-		sc.DelayUs = 3000 + r.Int63n(15000)
-		sc.Dup = []float64{0, 0.2}[r.Intn(2)]
-		if r.Intn(3) == 0 {
-			sc.Limit = int64(2 + r.Intn(6))
-		}
-		addCallers(n+4, nil)
-		nf := 1 + r.Intn(4)
-		for i := 0; i < nf; i++ {
-			sc.Faults = append(sc.Faults, Fault{AtUs: 3000 + r.Int63n(30000), Kind: []string{"kill", "kill", "recvfail", "sendfail"}[r.Intn(4)], Host: r.Intn(sc.NHosts), N: 1 + r.Intn(2)})
-		}
-	case "streamfail": // the stream breaks (server kill, injected recv/send/create failures, connection restart) during traffic
-		sc.NHosts = 1 + r.Intn(2)
-		sc.DelayUs = 2000 + r.Int63n(10000)
-		addCallers(n+2, func(i int, cs *CallerSpec) { cs.StartUs = r.Int63n(60000) })
-		nf := 1 + r.Intn(5)
-		for i := 0; i < nf; i++ {
-			k := []string{"kill", "killall", "recvfail", "sendfail", "initfail", "restart"}[r.Intn(6)]
-			f := Fault{AtUs: r.Int63n(60000), Kind: k, Host: r.Intn(sc.NHosts), N: 1 + r.Intn(3)}
-			if k == "restart" {
-				f.N = 5 + r.Intn(40)
-			}
-			if k == "initfail" && r.Intn(2) == 0 {
-				f.AtUs = 0
-			}
-			sc.Faults = append(sc.Faults, f)
-		}
-	case "cancel": // cancellation points and time-outs, unanswered requests
-		sc.NHosts = 1 + r.Intn(2)
-		sc.DelayUs = 5000 + r.Int63n(30000)
-		sc.Blackhole = []float64{0, 0.2, 0.5}[r.Intn(3)]
-		addCallers(n+2, func(i int, cs *CallerSpec) {
-			switch r.Intn(3) {
-			case 0:
-				cs.CancelUs = r.Int63n(40000)
-			case 1:
-				cs.TimeoutMs = 5 + r.Intn(60)
-			default:
-				if sc.Blackhole > 0 {
-					cs.TimeoutMs = 100 + r.Intn(200)
-				}
-			}
-		})
-		if r.Intn(2) == 0 {
-			sc.Faults = append(sc.Faults, Fault{AtUs: 10000 + r.Int63n(40000), Kind: "kill", Host: r.Intn(sc.NHosts)})
-		}
-	case "close": // the pool / client is closed during traffic
-		sc.NHosts = 1 + r.Intn(2)
-		sc.DelayUs = 3000 + r.Int63n(20000)
-		addCallers(n+2, func(i int, cs *CallerSpec) { cs.StartUs = r.Int63n(40000); cs.TimeoutMs = 400 })
-		sc.Faults = append(sc.Faults, Fault{AtUs: 2000 + r.Int63n(30000), Kind: []string{"close", "closeaddr"}[r.Intn(2)]})
-	case "staleepoch": // a forwarded and the direct stream fail one after the other (per-loop epoch)
-		sc.NHosts = 2
-		sc.DelayUs = 60000
-		sc.Reorder = 0
-		addCallers(4+r.Intn(6), func(i int, cs *CallerSpec) { cs.Host = i % 2; cs.StartUs = r.Int63n(3000); cs.TimeoutMs = 300; cs.Pri = 0 })
-		a, b := r.Intn(2), 0
-		b = 1 - a
-		sc.Faults = append(sc.Faults, Fault{AtUs: 15000, Kind: "kill", Host: a}, Fault{AtUs: 30000, Kind: "kill", Host: b})
-	case "rebreak": // a stream breaks repeatedly: first with nothing pending (one loop loses the epoch CAS), later with
-		// requests pending on it -- sync calls with a normal / a 30 s time-out and async calls without deadline
-		sc.NHosts = 2 + r.Intn(2)
-		sc.DelayUs, sc.Reorder = 200, 0
-		a := r.Intn(sc.NHosts)
-		b := (a + 1 + r.Intn(sc.NHosts-1)) % sc.NHosts
-		for h := 0; h < sc.NHosts; h++ { // phase 1: create every stream, nothing stays pending
-			for k := 0; k < 1+r.Intn(2); k++ {
-				sc.Callers = append(sc.Callers, CallerSpec{Host: h, Kind: r.Intn(4), TimeoutMs: normalTo, CancelUs: -1, StartUs: r.Int63n(4000)})
-			}
-		}
-		// phase 2: both streams break with nothing pending; a's loop wins the CAS, b's loses (and refreshes)
-		sc.Faults = append(sc.Faults, Fault{AtUs: 40000, Kind: "kill", Host: a}, Fault{AtUs: 55000, Kind: "kill", Host: b})
-		target := b
-		if r.Intn(2) == 0 { // b breaks once more, still with nothing pending
-			sc.Faults = append(sc.Faults, Fault{AtUs: 70000, Kind: "kill", Host: b})
-		} else if r.Intn(4) == 0 {
-			target = a
-		}
-		// phase 3: slow requests pending on the target stream (and quick ones elsewhere), then it breaks again
-		np := 1 + r.Intn(5)
-		for k := 0; k < np; k++ {
-			cs := CallerSpec{Host: target, Kind: r.Intn(4), TimeoutMs: normalTo, CancelUs: -1, StartUs: 100000 + r.Int63n(15000), SlowMs: 400}
-			switch r.Intn(3) {
-			case 0:
-				cs.Long = true
-			case 1:
-				cs.Long, cs.Async = true, true
-			}
-			if k == 0 && !cs.Long {
-				cs.Long, cs.Async = true, r.Intn(2) == 0
-			}
-			sc.Callers = append(sc.Callers, cs)
-		}
-		for k := 0; k < r.Intn(3); k++ {
-			h := r.Intn(sc.NHosts)
-			if h == target {
-				continue
-			}
-			sc.Callers = append(sc.Callers, CallerSpec{Host: h, Kind: r.Intn(4), TimeoutMs: normalTo, CancelUs: -1, StartUs: 100000 + r.Int63n(15000), SlowMs: 20, Async: r.Intn(2) == 0})
-		}
-		sc.Faults = append(sc.Faults, Fault{AtUs: 140000, Kind: "kill", Host: target})
-		if r.Intn(3) == 0 { // and once more, with new requests pending
-			for k := 0; k < 1+r.Intn(2); k++ {
-				sc.Callers = append(sc.Callers, CallerSpec{Host: target, Kind: r.Intn(4), TimeoutMs: normalTo, CancelUs: -1, StartUs: 170000 + r.Int63n(5000), SlowMs: 400, Long: true, Async: r.Intn(2) == 0})
-			}
-			sc.Faults = append(sc.Faults, Fault{AtUs: 200000, Kind: "kill", Host: target})
-		}
-	case "staleasync": // calls without deadline (sync 30 s / async) pending on the stream whose loop LOSES the epoch CAS:
-		// they must be failed by the stream error like the winner's (fix a827fda), not left in flight
-		sc.NHosts = 2
-		sc.DelayUs, sc.Reorder = 200, 0
-		a := r.Intn(2)
-		for i := 0; i < 2+r.Intn(3); i++ {
-			sc.Callers = append(sc.Callers, CallerSpec{Host: 1 - a, Kind: r.Intn(4), TimeoutMs: normalTo, CancelUs: -1, StartUs: r.Int63n(3000), SlowMs: 400, Long: true, Async: i%2 == 0})
-		}
-		sc.Callers = append(sc.Callers, CallerSpec{Host: a, Kind: r.Intn(4), TimeoutMs: normalTo, CancelUs: -1, StartUs: r.Int63n(3000), SlowMs: 400})
-		sc.Faults = append(sc.Faults, Fault{AtUs: 15000, Kind: "kill", Host: a}, Fault{AtUs: 30000, Kind: "kill", Host: 1 - a})
-	case "limitbatch": // a finite MaxConcurrencyRequestLimit and whole batches of mixed priorities built at once: the failpoint
-		// holds every batch before buildWithLimit, so the requests of a wave land in ONE build; high-priority (>= 10) and
-		// already cancelled entries use up the first Take without counting, more normal requests are queued than slots
-		// remain -> second Take round; most normal requests are long / no-deadline calls (must complete in the drain phase)
-		sc.NHosts = 1 + r.Intn(2)
-		sc.Limit = int64(1 + r.Intn(3))
-		sc.DelayUs, sc.Reorder = 200, 0
-		hold := 8 + r.Intn(10)
-		sc.Faults = append(sc.Faults, Fault{AtUs: 0, Kind: "senddelay", N: hold})
-		sc.Callers = append(sc.Callers, CallerSpec{Kind: 0, TimeoutMs: normalTo, CancelUs: -1, StartUs: 500}) // opens the first hold
-		waves := 1 + r.Intn(3)
-		for w := 0; w < waves; w++ {
-			base := int64(2000 + w*(hold+6)*1000)
-			nhi := r.Intn(3)
-			ncanc := r.Intn(3)
-			nnorm := int(sc.Limit) + 1 + r.Intn(4)
-			for i := 0; i < nhi; i++ {
-				sc.Callers = append(sc.Callers, CallerSpec{Host: r.Intn(sc.NHosts), Pri: []int{10, 12, 16}[r.Intn(3)], Kind: r.Intn(4), TimeoutMs: normalTo, CancelUs: -1, StartUs: base + r.Int63n(2000)})
-			}
-			for i := 0; i < ncanc; i++ { // gives up while it sits in the channel / builder
-				sc.Callers = append(sc.Callers, CallerSpec{Host: r.Intn(sc.NHosts), Pri: []int{0, 5, 12}[r.Intn(3)], Kind: r.Intn(4), TimeoutMs: normalTo, CancelUs: base + 2500 + r.Int63n(2000), StartUs: base + r.Int63n(2000)})
-			}
-			for i := 0; i < nnorm; i++ {
-				cs := CallerSpec{Host: r.Intn(sc.NHosts), Pri: []int{0, 0, 1, 9}[r.Intn(4)], Kind: r.Intn(4), TimeoutMs: normalTo, CancelUs: -1, StartUs: base + r.Int63n(2000), SlowMs: []int{0, 0, 30}[r.Intn(3)]}
-				switch r.Intn(4) {
-				case 0:
-					cs.Long = true
-				case 1, 2:
-					cs.Long, cs.Async = true, true
-				default:
-					cs.TimeoutMs = 300 // may be left in the builder until its time-out when nothing else arrives
-				}
-				sc.Callers = append(sc.Callers, cs)
-			}
-		}
-	case "runloop": // several SendRequestAsync calls whose callbacks run on ONE shared async.RunLoop; the responses arrive 1 ms
-		// apart while a callback keeps the loop in its round for a few ms, so callbacks are appended to the loop while a
-		// round with several queued callbacks is executing; every callback must run exactly once
-		sc.NHosts = 1 + r.Intn(2)
-		sc.RunLoop = true
-		sc.DelayUs, sc.Reorder = 100, 0
-		k := 8 + r.Intn(10)
-		for i := 0; i < k; i++ {
-			sc.Callers = append(sc.Callers, CallerSpec{Host: r.Intn(sc.NHosts), Kind: r.Intn(4), TimeoutMs: normalTo, CancelUs: -1, StartUs: r.Int63n(2000),
-				SlowMs: 15 + i + r.Intn(2), Async: true, Long: r.Intn(4) != 0, CbMs: 2 + r.Intn(4)})
-		}
-	case "collapse": // ResolveLock through the wrapper stack of tikv/kv.go: callers with the same (region, start version) share one
-		// flight; the caller that started it is often cancelled / times out while the server still holds the request: every
-		// other caller must get the shared response, not the leader's error; different keys are never collapsed
-		sc.NHosts = 1
-		sc.Collapse = true
-		sc.HoldMs = 30 + r.Intn(30)
-		sc.DelayUs, sc.Reorder = 200, 0
-		nkeys := 1 + r.Intn(3)
-		for kx := 0; kx < nkeys; kx++ {
-			key := 100*(id%90) + 10*(kx+1) // unique per scenario: the singleflight group is a package global
-			m := 2 + r.Intn(3)
-			// request pairs on one (region, start version) that are equal or differ in exactly ONE component of the command --
-			// TxnInfos (batch resolve), Keys (resolve lock lite), region -- overlapping in time, through the sync and the async
-			// entry of the wrapper: only equal plain full-region requests may share a flight
-			pair := [][2]int{{0, 0}, {0, 1}, {1, 2}, {1, 1}, {0, 3}, {0, 5}, {2, 1}, {3, 3}, {1, 0}}[r.Intn(9)]
-			if os.Getenv("VERIF_C18_COMMITVAR") == "1" && r.Intn(3) == 0 {
-				pair = [2]int{0, 4}
-			}
-			allAsync := r.Intn(2) == 0
-			for i := 0; i < m; i++ {
-				cs := CallerSpec{Kind: 4, Key: key, Var: pair[i%2], TimeoutMs: normalTo, CancelUs: -1, StartUs: int64(i)*1500 + r.Int63n(500), Async: allAsync || r.Intn(3) == 0}
-				if i == 0 { // the caller that starts the shared request
-					switch r.Intn(3) {
-					case 0:
-						cs.CancelUs = 5000 + r.Int63n(10000)
-					case 1:
-						cs.TimeoutMs = 8 + r.Intn(10)
-					}
-				} else if r.Intn(5) == 0 {
-					cs.CancelUs = 6000 + r.Int63n(10000)
-				}
-				sc.Callers = append(sc.Callers, cs)
-			}
-		}
-	case "idle": // idle recycling: the idle timer of the pool is made to expire (read-only export hook: idleTimeout is a 3 min
-		// constant) while a trickle of calls is running: batchSendLoop marks the conn idle and returns, calls get
-		// "rpcClient is idle", the next call triggers recycleIdleConnArray (CloseAddrVer), later calls use a new pool. Every
-		// call must return exactly once, also async calls without deadline that are enqueued just when the send loop exits on
-		// the idle timer (regression class for fix F40).
-		sc.NHosts = 1 + r.Intn(2)
-		sc.DelayUs, sc.Reorder = 200, 0
-		k := 40 + r.Intn(60)
-		for i := 0; i < k; i++ {
-			cs := CallerSpec{Host: r.Intn(sc.NHosts), Kind: r.Intn(4), TimeoutMs: 250, CancelUs: -1, StartUs: int64(i)*300 + r.Int63n(200), Async: r.Intn(2) == 0}
-			if cs.Async && r.Intn(3) != 0 {
-				cs.Long = true // no deadline: must be failed ("rpcClient is idle" / "batchConn closed") or answered, never orphaned
-			}
-			sc.Callers = append(sc.Callers, cs)
-		}
-		for i := 0; i < 2+r.Intn(4); i++ {
-			sc.Faults = append(sc.Faults, Fault{AtUs: 2000 + r.Int63n(int64(k)*300), Kind: "idle", N: 1})
-		}
-	case "limitstarve": // regression class for fix 7ad2a8a: a finite limit, one wave built at once, NO further traffic: the
-		// requests left in the builder must be sent as soon as capacity is released (retry timer), not only when another
-		// request happens to arrive
-		sc.NHosts = 1
-		sc.Limit = int64(1 + r.Intn(3))
-		sc.DelayUs, sc.Reorder = 200, 0
-		sc.Faults = append(sc.Faults, Fault{AtUs: 0, Kind: "senddelay", N: 10 + r.Intn(8)})
-		sc.Callers = append(sc.Callers, CallerSpec{Kind: 0, TimeoutMs: normalTo, CancelUs: -1, StartUs: 0})
-		for i := 0; i < int(sc.Limit)+1+r.Intn(4); i++ {
-			sc.Callers = append(sc.Callers, CallerSpec{Pri: []int{0, 0, 5}[r.Intn(3)], Kind: r.Intn(4), TimeoutMs: normalTo, CancelUs: -1, StartUs: 3000 + r.Int63n(1500), SlowMs: []int{0, 20}[r.Intn(2)], Long: true, Async: r.Intn(2) == 0})
-		}
-	case "builder": // the builder: mixed priorities (high ones bypass the limit), a small concurrency limit so that entries
-		// stay in the priority queue across rounds, callers that give up while still queued, forwarding buckets
-		sc.NHosts = 1 + r.Intn(3)
-		sc.DelayUs = 1000 + r.Int63n(6000)
-		sc.Limit = int64(1 + r.Intn(4))
-		sc.Reorder = 0.5
-		if r.Intn(2) == 0 {
-			sc.MaxBatch = uint(2 + r.Intn(6))
-		}
-		addCallers(n+6, func(i int, cs *CallerSpec) {
-			cs.Pri = []int{0, 0, 1, 5, 9, 10, 12, 16}[r.Intn(8)]
-			cs.StartUs = r.Int63n(8000)
-			cs.Async = r.Intn(4) == 0
-			if r.Intn(5) == 0 {
-				cs.Long = true
-				return
-			}
-			switch r.Intn(4) {
-			case 0:
-				cs.CancelUs = r.Int63n(6000) // often before the entry is built
-			case 1:
-				cs.TimeoutMs = 1 + r.Intn(8)
-			}
-		})
-	case "recvpanic": // response batches with an id that lacks its response: batchRecvLoop panics between Load and deliver,
-		// restarts on the same stream; the proper response follows; sometimes the stream breaks afterwards
-		sc.NHosts = 1 + r.Intn(2)
-		sc.DelayUs = 1000 + r.Int63n(4000)
-		sc.Reorder = 0.5
-		addCallers(n+3, func(i int, cs *CallerSpec) {
-			cs.StartUs = r.Int63n(30000)
-			cs.Async = r.Intn(3) == 0
-			cs.Long = r.Intn(3) == 0 // must still be answered by the restarted loop (drain phase)
-		})
-		for k := 0; k < 1+r.Intn(3); k++ {
-			sc.Faults = append(sc.Faults, Fault{AtUs: r.Int63n(25000), Kind: "recvpanic", N: 1 + r.Intn(2)})
-		}
-		if r.Intn(2) == 0 {
-			sc.Faults = append(sc.Faults, Fault{AtUs: 10000 + r.Int63n(20000), Kind: "kill", Host: r.Intn(sc.NHosts)})
-		}
-	case "failpanic": // panic at the start of failPendingRequests (repo failpoint) while requests are pending on the broken
-		// stream: nothing may be lost, the restarted loop fails them on the next Recv error
-		sc.NHosts = 1 + r.Intn(2)
-		sc.DelayUs, sc.Reorder = 200, 0
-		tgt := r.Intn(sc.NHosts)
-		addCallers(2+r.Intn(5), func(i int, cs *CallerSpec) {
-			cs.StartUs = r.Int63n(5000)
-			cs.SlowMs = 300
-			if i%2 == 0 {
-				cs.Host = tgt
-			}
-			switch r.Intn(3) {
-			case 0:
-				cs.Long = true
-			case 1:
-				cs.Long, cs.Async = true, true
-			}
-		})
-		sc.Faults = append(sc.Faults, Fault{AtUs: 15000, Kind: "failpanic", N: 1}, Fault{AtUs: 20000, Kind: "kill", Host: tgt})
-	case "twopools": // two stores (own server, address, pool, id source) used concurrently: both hand out ids 1,2,3,... and use
-		// the same forwarded-host names; a response must never cross over
-		sc.Pools = 2
-		sc.NHosts = 1 + r.Intn(3)
-		sc.DelayUs = 1000 + r.Int63n(8000)
-		sc.Dup = []float64{0, 0.2}[r.Intn(2)]
-		addCallers(n+6, func(i int, cs *CallerSpec) { cs.Pool = i % 2; cs.StartUs = r.Int63n(6000); cs.Async = r.Intn(4) == 0 })
-		for k := 0; k < r.Intn(3); k++ {
-			sc.Faults = append(sc.Faults, Fault{AtUs: 2000 + r.Int63n(10000), Kind: []string{"kill", "recvfail", "sendfail"}[r.Intn(3)], Host: r.Intn(sc.NHosts), Pool: r.Intn(2), N: 1})
-		}
-	case "nonbatch": // MaxBatchSize = 0: sendRequest takes the unary path (tikvrpc.CallRPC with a time-out context); time-outs,
-		// cancellation, server restart and Close while calls are pending; SendRequestAsync must fail at once
-		sc.NoBatch = true
-		sc.NHosts = 1 + r.Intn(2)
-		addCallers(n+4, func(i int, cs *CallerSpec) {
-			cs.Kind = []int{0, 1, 3}[r.Intn(3)]
-			cs.StartUs = r.Int63n(20000)
-			cs.SlowMs = []int{0, 5, 40, 200}[r.Intn(4)]
-			cs.Async = r.Intn(6) == 0
-			switch r.Intn(4) {
-			case 0:
-				cs.CancelUs = r.Int63n(30000)
-			case 1:
-				cs.TimeoutMs = 5 + r.Intn(60)
-			default:
-				cs.TimeoutMs = 400
-			}
-			if r.Intn(8) == 0 { // the server sits on the call far beyond its time-out
-				cs.SlowMs, cs.TimeoutMs, cs.CancelUs, cs.Async = 7000, 40+r.Intn(80), -1, false
-			}
-		})
-		switch r.Intn(3) {
-		case 0:
-			sc.Faults = append(sc.Faults, Fault{AtUs: 5000 + r.Int63n(20000), Kind: []string{"close", "closeaddr"}[r.Intn(2)]})
-		case 1:
-			sc.Faults = append(sc.Faults, Fault{AtUs: 5000 + r.Int63n(20000), Kind: "restart", N: 5 + r.Intn(30)})
-		}
-	case "asyncclose": // regression class for fix 000f10e: SendRequestAsync calls without deadline racing with RPCClient.Close --
-		// an entry on batchCommandsCh when batchSendLoop returns (or enqueued afterwards) must be failed, not orphaned
-		sc.Callers = append(sc.Callers, CallerSpec{Kind: 0, TimeoutMs: normalTo, CancelUs: -1, StartUs: 1000})
-		for i := 0; i < 300; i++ {
-			sc.Callers = append(sc.Callers, CallerSpec{Kind: i % 4, TimeoutMs: normalTo, CancelUs: -1, StartUs: 29500 + r.Int63n(1200), Async: true, Long: true})
-		}
-		sc.Faults = append(sc.Faults, Fault{AtUs: 30000, Kind: "close"})
-	case "sendpanic": // the send loop panics and restarts while slow requests with small ids are in flight; later
-		// requests stay in flight long enough to meet the responses of the earlier ones
-		sc.NHosts = 1 + r.Intn(2)
-		sc.DelayUs, sc.Reorder = 200, 0
-		k := 1 + r.Intn(4)
-		for i := 0; i < k; i++ {
-			sc.Callers = append(sc.Callers, CallerSpec{Host: r.Intn(sc.NHosts), Kind: r.Intn(4), TimeoutMs: normalTo, CancelUs: -1, StartUs: r.Int63n(3000), SlowMs: 60 + r.Intn(30)})
-		}
-		sc.Faults = append(sc.Faults, Fault{AtUs: 10000, Kind: "sendpanic", N: 1})
-		m := k + 2 + r.Intn(4)
-		for i := 0; i < m; i++ {
-			sc.Callers = append(sc.Callers, CallerSpec{Host: r.Intn(sc.NHosts), Kind: r.Intn(4), TimeoutMs: normalTo, CancelUs: -1, StartUs: 15000 + r.Int63n(20000), SlowMs: 120 + r.Intn(40), Async: r.Intn(3) == 0})
-		}
-		if r.Intn(3) == 0 { // a second panic later
-			sc.Faults = append(sc.Faults, Fault{AtUs: 45000, Kind: "sendpanic", N: 1})
-		}
-		for i := 0; i < 3; i++ { // late quick requests: they also push out whatever a panicking round left in the builder
-			sc.Callers = append(sc.Callers, CallerSpec{Host: r.Intn(sc.NHosts), Kind: r.Intn(4), TimeoutMs: normalTo, CancelUs: -1, StartUs: 50000 + int64(i)*6000})
-		}
-	case "multiconn": // several connections share the id source (black-box oracles only)
-		sc.Conns = uint(2 + r.Intn(3))
-		sc.NHosts = 1 + r.Intn(3)
-		sc.DelayUs = 1000 + r.Int63n(8000)
-		sc.Dup = 0.2
-		addCallers(n+8, nil)
-		nf := r.Intn(4)
-		for i := 0; i < nf; i++ {
-			sc.Faults = append(sc.Faults, Fault{AtUs: 3000 + r.Int63n(30000), Kind: []string{"kill", "killall", "recvfail", "sendfail"}[r.Intn(4)], Host: r.Intn(sc.NHosts), N: 1})
-		}
-	}
-	return sc
 }
 
 func main() {
@@ -1831,7 +153,7 @@ func main() {
 	tier := os.Getenv("VERIF_TIER")
 	r := rand.New(rand.NewSource(seed*7919 + 17))
 	classes := []string{"plain", "forward", "streamfail", "cancel", "close", "staleepoch", "multiconn", "rebreak", "sendpanic", "staleasync",
-		"builder", "recvpanic", "failpanic", "twopools", "nonbatch", "asyncclose", "limitbatch", "limitstarve", "runloop", "collapse", "idle"}
+		"builder", "recvpanic", "failpanic", "twopools", "nonbatch", "asyncclose", "limitbatch", "limitstarve", "runloop", "collapse", "idle", "rcglue"}
 	rounds := 8
 	if tier == "thorough" {
 		rounds = 100
@@ -1852,7 +174,14 @@ func main() {
 	if dir := os.Getenv("VERIF_C18_CORPUS"); dir != "" && (only == "" || only == "corpus") {
 		files, _ := filepath.Glob(filepath.Join(dir, "*.json"))
 		sort.Strings(files)
-		for _, f := range files {
+		nfast := len(files)
+		if os.Getenv("VERIF_TIER") == "thorough" {
+			// scenarios that take seconds by construction (they wait for a dial timeout of the repo): once, thorough only
+			slow, _ := filepath.Glob(filepath.Join(dir, "slow", "*.json"))
+			sort.Strings(slow)
+			files = append(files, slow...)
+		}
+		for fi, f := range files {
 			b, err := os.ReadFile(f)
 			if err != nil {
 				continue
@@ -1861,7 +190,11 @@ func main() {
 			if json.Unmarshal(b, &sc) != nil {
 				continue
 			}
-			for rep := 0; rep < 3; rep++ {
+			reps := 3
+			if fi >= nfast {
+				reps = 1
+			}
+			for rep := 0; rep < reps; rep++ {
 				id++
 				s2 := sc
 				s2.ID, s2.Class = id, "corpus"
